@@ -33,3 +33,8 @@ add("C10", "model_checking",
     "Every call sequence up to depth 2 (quick) / 3 (thorough) over {run, authorize, authorize_with_limits, query, query_all, query_with_limits, clone, snapshot->restore} on one Authorizer, for every program family (chains needing exactly L iterations, fan-out, k-way joins = one expensive iteration, preloaded facts, mixed; in the authorizer or in a token block) and every limit class (each budget at 0, 1, need-1, need, need+1, others unlimited; all at / below the boundary). Time is virtual: each candidate examined by the join iterator costs 1 microsecond. Invariants: a completed evaluation call never leaves iterations(), fact_count() or cumulative virtual time above the budget (S1); after the deadline passes the call returns within 32 x (facts + body predicates + 1) ticks (S2); no panic.",
     "Virtual time (H2/H3 seams) replaces wall-clock time; the promptness allowance is a stated operationalisation; two known findings (time of failed calls forgotten; no clock read inside a join).",
     "DESIGN.md §3 C10")
+add("C03", "model_checking",
+    "bounded-exhaustive enumeration of (token, appended block, authorizer) triples from a scoping grammar, metamorphic oracle evaluated on the real code for every triple",
+    "For every triple of the grammar (1-2 block tokens, first- or third-party extensions with facts, rules and checks of the three kinds aimed at earlier blocks' predicates under every scope, authorizers with facts, rules, checks, ordered allow/deny policies and scopes that never name the extension's key): if the extended token is authorized the original is authorized by the same policy, every failed check of the original still fails, and every fact whose origin does not contain the new block is unchanged.",
+    "Both sides of the oracle are the real implementation (C04 ties it to the reference semantics); limits non-binding.",
+    "DESIGN.md §3 C03")
